@@ -120,16 +120,17 @@ class Prop:
     case_vo = "theories/Cases/CaseC16.vo"
     run_fn = "run16"
     shard = 8
-    rule = ("every ordered forest shape with <= N nodes (quick: N=4 with every style of the table, the default, '', 'list', 4 custom "
-            "4-/6-tuples incl. astral-plane code points and 6 malformed styles; 5-node shapes with a rotating third of the styles; "
-            "thorough: N=6 with everything) plus seeded random deep/wide trees up to 24 nodes; per (tree, style): Tree.format_iter "
+    rule = ("every ordered forest shape with <= N nodes (quick N=4, thorough N=5) with every style of the table, the default, '', 'list', 4 custom "
+            "4-/6-tuples incl. astral-plane code points and 6 malformed styles; every (N+1)-node shape with a rotating third of the styles; "
+            "plus seeded random deep/wide trees of 6..24 nodes (quick 40, thorough 160); every 5th case gives all nodes ONE data object "
+            "(siblings equal but not identical); per (tree, style): Tree.format_iter "
             "for title in {default, False, True, text, ''}, Node.format_iter for EVERY node as start with add_self on/off, "
             "format(join=j) for the tree and every node; repr as format string, callable or the class default; plain and typed trees; "
             "data strings that themselves look like connectors.  distinct = distinct (shape, style set, repr mode, typed); "
             "non-trivial = a node at relative depth >= 2 or two siblings exist (so ancestor and last/non-last segments both occur)")
-    exhaustive_note = "all forest shapes <= 4 nodes x all styles (quick); <= 6 nodes x all styles (thorough)"
+    exhaustive_note = "all forest shapes <= 4 nodes x all styles (quick); <= 5 nodes x all styles, 6 nodes x a third of the styles (thorough)"
     assumptions = [
-        "is-last-sibling is positional in the model (no following sibling); equals the code's identity test when a node object occurs once in its parent's child list (C01)",
+        "is-last-sibling is positional in the model (no following sibling); PROVED equal to the identity tests of the relationship-query model (C10: q_is_last of every ancestor's own context, get_parent_list order) for forests with unique node identities (theorem C16_flags_are_the_identity_tests_of_the_code); uniqueness of identities is C01",
         "the rendering of a node (repr string/callable) is an input of the model; the harness computes it independently of format()",
         "tree names need no escaping in repr(): title line is Cls<'name'>",
     ]
@@ -159,7 +160,7 @@ class Prop:
         yield from CORPUS
         table = [["name", s] for s in STYLE_NAMES]
         everything = SPECIAL + table + CUSTOM + MALFORMED
-        nfull = 4 if tier == "quick" else 6
+        nfull = 4 if tier == "quick" else 5
         i = 0
         for n in range(0, nfull + 1):
             for shape in H.forests(n):
@@ -167,12 +168,12 @@ class Prop:
                 yield self._desc(shape, everything[0::2], i, typed=(i % 7 == 3))
                 yield self._desc(shape, everything[1::2], i + 1, typed=(i % 7 == 5))
                 i += 2
-        if tier == "quick":
-            for j, shape in enumerate(H.forests(5)):
-                sub = [everything[(j + 3 * k) % len(everything)] for k in range(len(everything) // 3 + 1)]
-                yield self._desc(shape, sub, i, typed=(i % 7 == 3))
-                i += 1
-        nrand = 40 if tier == "quick" else 400
+        # one size further: every shape with a rotating third of the styles
+        for j, shape in enumerate(H.forests(nfull + 1)):
+            sub = [everything[(j + 3 * k) % len(everything)] for k in range(len(everything) // 3 + 1)]
+            yield self._desc(shape, sub, i, typed=(i % 7 == 3))
+            i += 1
+        nrand = 40 if tier == "quick" else 160
         for _ in range(nrand):
             n = rng.randint(6, 24)
             shape = H.random_shape(rng, n, deep=rng.choice([0.3, 0.6, 0.9]))
